@@ -275,3 +275,11 @@ Proof.
   destruct (eval_good false s m2 g2 a2 t2 H2 E2) as (G2 & _).
   congruence.
 Qed.
+
+Theorem regfile_never_overflows_lemma : forall (r : bool) (s : skel) (m : mstate) g m' t,
+  envs m <> [] -> eval (repaired r) s m = (g, m', t) -> g <> GPanic PNoRegisters.
+Proof. intros r s m g m' t H E. exact (proj1 (regfile_no_failure_lemma r s m g m' t H E)). Qed.
+
+Theorem release_is_lifo_lemma : forall (r : bool) (s : skel) (m : mstate) g m' t,
+  envs m <> [] -> eval (repaired r) s m = (g, m', t) -> g <> GPanic PNonLifo /\ g <> GStuck.
+Proof. intros r s m g m' t H E. exact (proj2 (regfile_no_failure_lemma r s m g m' t H E)). Qed.
